@@ -1046,10 +1046,10 @@ func init() {
 		scale := fs.Int("scale", 1, "work multiplier")
 		fs.Parse(args[1:])
 		all := map[string]func(int64, int) int{"timeout": stressTimeout, "bulkhead": stressBulkhead, "breaker": stressBreaker, "hedge": stressHedge,
-			"cancel": stressCancel, "future": stressFuture, "leaks": stressLeaks, "shared": stressShared}
+			"cancel": stressCancel, "future": stressFuture, "leaks": stressLeaks, "shared": stressShared, "adapterleaks": stressAdapterLeaks}
 		if args[0] == "all" {
 			rc := 0
-			for _, n := range []string{"timeout", "bulkhead", "breaker", "hedge", "cancel", "future", "leaks", "shared"} {
+			for _, n := range []string{"timeout", "bulkhead", "breaker", "hedge", "cancel", "future", "leaks", "shared", "adapterleaks"} {
 				rc |= all[n](*seed, *scale)
 			}
 			return rc
